@@ -20,7 +20,7 @@ CONSTANTS
   SweepSlack <- SlackOne
 VIEW TraceView
 CONSTRAINT HighWater
-INVARIANTS TypeOK SweeperArmed ReadStreamIsRetainedSuffix ReadStateIsRefPage PageAfterCursor OrderedFlagFollowsOptions
+INVARIANTS TypeOK SweeperArmed SubscriberConverges ReadStreamIsRetainedSuffix ReadStateIsRefPage PageAfterCursor OrderedFlagFollowsOptions
 PROPERTIES T_CheckOrder T_SuppressedChangesNothing T_AppliedAppendsAndBroadcastsOnce T_NeverLostNeverTwice T_IdemExact T_EpochStable
 POSTCONDITION TraceAccepted
 CHECK_DEADLOCK FALSE
